@@ -73,13 +73,13 @@ def gen_config(rng, run_index, j):
     return cfg
 
 
-def run_child(configs, mode):
+def run_child(configs, mode, hashseed=None):
     fd, path = tempfile.mkstemp(prefix="simx_c18_", suffix=".json")
     try:
         with os.fdopen(fd, "w") as f:
             json.dump({"mode": mode, "configs": configs}, f)
         env = dict(os.environ)
-        env["PYTHONHASHSEED"] = os.environ.get("VERIF_HASHSEED", "0")
+        env["PYTHONHASHSEED"] = str(hashseed) if hashseed is not None else os.environ.get("VERIF_HASHSEED", "0")
         env["PYTHONPATH"] = child_pythonpath()
         p = subprocess.run([sys.executable, os.path.join(VERIF, "simx", "repro_child.py"), path],
                            capture_output=True, text=True, timeout=900, env=env, cwd=VERIF)
@@ -102,7 +102,8 @@ class C18Check(Check):
             "pair, stream) executed twice in fresh interpreters: A plain, B perturbed (library activity before seeding, heap "
             "churn + gc, simulated clock with offset/skew/backward jumps); digests of storage contents and float.hex "
             "importance values compared after every operation; distinct = distinct digest histories")
-    assumptions = ["same PYTHONHASHSEED in both replays (the property fixes the interpreter configuration)",
+    assumptions = ["every second batch runs replay B under another PYTHONHASHSEED (the default interpreter configuration draws "
+                   "a fresh string-hash secret per start: entropy that is neither of the two global generators)",
                    "the worker-count perturbation of DESIGN.md is not applicable inside a single replay process"]
     wall_limit = {"quick": 900, "thorough": 4 * 3600}
 
@@ -111,15 +112,22 @@ class C18Check(Check):
 
     def gen(self, seed, tier, run_index):
         rng = seeds.run_rng(seed, self.prop, tier, run_index)
-        return {"property": self.prop, "kind": "repro", "ops": [gen_config(rng, run_index, j) for j in range(BATCH)]}
+        plan = {"property": self.prop, "kind": "repro", "ops": [gen_config(rng, run_index, j) for j in range(BATCH)]}
+        if run_index % 2 == 1:
+            # the string-hash secret is drawn afresh by every interpreter start unless PYTHONHASHSEED pins it: it is a
+            # source of entropy that is neither of the two global generators, so results must not depend on it either
+            plan["hashseed_b"] = 1 + rng.randrange(2 ** 32 - 1)
+        return plan
 
     def run(self, plan):
         configs = plan["ops"]
         a = run_child(configs, "A")
-        b = run_child(configs, "B")
+        b = run_child(configs, "B", plan.get("hashseed_b"))
         res = {"ok": True, "violation": None, "ops_run": 0, "aborted": None, "probes": {}, "faults_fired": {},
                "estimating_steps": 0, "extra": {}}
         probes = res["probes"]
+        if plan.get("hashseed_b") is not None:
+            probes["replay_B_under_another_string_hash_secret"] = 1
         import hashlib
         h = hashlib.blake2b(digest_size=16)
         for j, (cfg, ra, rb) in enumerate(zip(configs, a, b)):
